@@ -112,6 +112,11 @@ func (w *WindowCalculator) windowOffset(agentID identity.AgentID) time.Duration 
 func (w *WindowCalculator) cycleStart(t time.Time) time.Time {
 	elapsed := t.Sub(w.cfg.Epoch)
 	cycleNum := elapsed / w.cfg.CycleLength
+	// Go's division truncates toward zero; before the epoch that would select
+	// the following cycle, so round down instead.
+	if elapsed%w.cfg.CycleLength < 0 {
+		cycleNum--
+	}
 	return w.cfg.Epoch.Add(cycleNum * w.cfg.CycleLength)
 }
 
